@@ -518,14 +518,15 @@ EXPLANATION = (
     "single-member test; object-type runtime inference) or equal under the declared involution (Partial/Required constants; Pick/Omit "
     "negation; Arrow/Fn parameter access). R16.2: every access to interfaces/type_aliases uses a (sym, ctxt) tuple of one identifier; no "
     "visitor map is keyed by a bare name. R16.3: path enumeration of the member resolver — each path contributes, recurses or reaches "
-    "span_err (reviewed: utility types without type arguments). R16.4: registries are filled during the traversal that reads them (known "
-    "finding). R16.5: requiredness table of the props builder."
+    "span_err (reviewed: utility types without type arguments). R16.4: the registries are filled by a read-only pre-pass that dominates the traversal and "
+    "are handed to the visitor before it. R16.5: requiredness table of the props builder. R16.6: every declaration hook registers on every "
+    "path. R16.7: identifier keys and quoted keys select alike. R16.8: the member accumulator is append-only."
 )
 ASSUMPTIONS = ["set equality of props for every type encoding is not computed; only agreement of sibling implementations and the tables are decided",
                "TypeScript rejects built-in utility types without type arguments"]
 TRUSTED = ["rustc nightly typed HIR", "SWC resolver contexts"]
 LEVEL = "other"
 LEVEL_TEXT = ("Sibling-agreement and table checks over the typed HIR of the resolver family; necessary conditions of 'exactly the declared "
-              "props however the type is written'. One genuine defect (declarations after the call) is a recorded known finding.")
+              "props however the type is written'. The former defect (declarations after the call not seen) was repaired (93bc839); R16.4 guards the pre-pass.")
 LEVEL_NOTE = "Trusted: rustc HIR, SWC resolver. Not decided: member-set equality for every encoding."
 TECHNIQUE = "sibling agreement on normalised typed HIR (A7) + key-construction provenance + path enumeration of the resolver"
